@@ -10,9 +10,26 @@ from props import registry  # noqa: E402
 ids = [json.loads(l)["id"] for l in open(os.path.join(HERE, "properties.jsonl"))]
 checks = []
 na = []
+import importlib
+import re
+
+
+def instances(pid):
+    """rule instance ids named in the module's docstring (Cnn.xxx), in order"""
+    mod = importlib.import_module("props." + pid)
+    out = []
+    for m in re.finditer(r"\b(%s\.[A-Za-z][\w-]*(?:\.[\w-]+)?)" % pid, mod.__doc__ or ""):
+        if m.group(1) not in out:
+            out.append(m.group(1))
+    return out
+
+
 for pid in ids:
     if pid in registry.CLAIMED:
-        c = registry.CLAIMED[pid]
+        c = dict(registry.CLAIMED[pid])
+        inst = instances(pid)
+        if inst:
+            c["text"] = c["text"].rstrip() + " Rule instances (each described in props/%s.py and DESIGN.md 11.2): %s." % (pid, ", ".join(inst))
         checks.append({
             "property_id": pid,
             "quick_cmd": "./check %s" % pid,
@@ -20,7 +37,7 @@ for pid in ids:
             "evidence_file": "evidence/%s.json" % pid,
             "replay_cmd_template": "./check %s --replay {path}" % pid,
             "engine": "dsa",
-            "level_claimed": {"category": c.get("category", "other"), "text": c["text"], "design_ref": "DESIGN.md section 4, " + pid},
+            "level_claimed": {"category": c.get("category", "other"), "text": c["text"], "design_ref": "DESIGN.md section 4 (plan) and section 11.2 (as built), " + pid},
             "level_note": c["note"],
             "technique": c["technique"],
         })
@@ -45,7 +62,7 @@ m = {
     }],
     "checks": checks,
     "not_applicable": na,
-    "notes": "Static analysis only. exit 0 pass / 1 VIOLATION / 2 analysis broken (anchor vanished, unit failed to parse). known_findings.json lists recorded defects.",
+    "notes": "Static analysis only. exit 0 pass / 1 VIOLATION / 2 analysis broken or inconclusive (anchor or vocabulary vanished, unit failed to parse, a shape the rule has no model for). known_findings.json lists recorded defects (known: KNOWN-FINDING line, exit 0) and the fix: commits. tools/selftest.py runs the both-ways corpus (reverted fixes, hand mutants, sub-agent seeds must fire; behaviour-preserving rewrites must stay silent).",
 }
 json.dump(m, open(os.path.join(HERE, "MANIFEST.json"), "w"), indent=1)
 print("claimed %d, not applicable %d" % (len(checks), len(na)))
